@@ -425,6 +425,47 @@ async def run_scenario(w: World):
             w.extra_plugins[step[1]] = Failing()
             w.nl.register(w.extra_plugins[step[1]])
             w.log(k='registered_failing', plugin=step[1], what=what)
+        elif op == 'register_spawner':
+            # ['register_spawner', name, hook, [[api, args], ...]]: a plugin whose <hook> implementation, the FIRST time it is called,
+            # starts a task FROM INSIDE THE HOOK (its context derives from the transition in progress) that issues the API calls one
+            # after the other, waiting for the harness ('spawner_go') before each call but the first
+            from nextline.plugin.spec import hookimpl
+
+            class Spawner:
+                pass
+            name, hook, calls = step[1], step[2], step[3]
+            w.spawn_go = getattr(w, 'spawn_go', None) or asyncio.Event()
+            fired = []
+
+            async def _do():
+                for k, (api, args) in enumerate(calls):
+                    if k:
+                        await w.spawn_go.wait()
+                        w.spawn_go.clear()
+                    w.log(k='call', task=name, api=api, args=args)
+                    try:
+                        await api_call(w, api, args)
+                        res = 'ok'
+                    except asyncio.CancelledError:
+                        w.log(k='ret', task=name, api=api, res='CancelledError')
+                        raise
+                    except BaseException as e:   # noqa
+                        res = type(e).__name__
+                    w.log(k='ret', task=name, api=api, res=res)
+
+            def _spawn():
+                if not fired:
+                    fired.append(asyncio.ensure_future(_do()))
+                    w.subs.append(fired[0])
+            ns = {}
+            exec(f'async def {hook}(self, context):\n    _spawn()\n', {'_spawn': _spawn}, ns)
+            setattr(Spawner, hook, hookimpl(ns[hook]))
+            w.extra_plugins = getattr(w, 'extra_plugins', {})
+            w.extra_plugins[name] = Spawner()
+            w.nl.register(w.extra_plugins[name])
+            w.log(k='registered_spawner', plugin=name, hook=hook)
+        elif op == 'spawner_go':
+            w.spawn_go.set()
         elif op == 'unregister':
             pl = getattr(w, 'extra_plugins', {}).pop(step[1], None)
             if pl is not None:
